@@ -48,6 +48,9 @@ type C14 struct {
 	// Prior, when set, is the state of the same known-hosts file during an earlier connection of
 	// the same process (strict checking on); the file is rewritten before the connection judged
 	Prior string `json:"prior_known_hosts,omitempty"`
+	// RelPath: the known-hosts file is named relative to the working directory, and a file of the
+	// same relative name below the home directory holds the opposite verdict
+	RelPath bool `json:"rel_path,omitempty"`
 	// Passphrase is given together with the private key (a secret for C11's purposes)
 	Passphrase string `json:"passphrase,omitempty"`
 	// KeyState (C11 leg only): "" a good key file | missing | garbage | dir
@@ -80,6 +83,9 @@ func genC14(seed uint64, run int, tier string) Scenario {
 	sc.Passphrase = genSecret(r, "pp-")
 	if sc.KnownHosts != "none" && sc.KnownHosts != "dir" && sc.KnownHosts != "removed" && r.IntN(2) == 0 {
 		sc.Prior = pick(r, "has", "other", "empty", "other-host")
+	}
+	if sc.Prior == "" && (sc.KnownHosts == "has" || sc.KnownHosts == "other" || sc.KnownHosts == "empty") && r.IntN(3) == 0 {
+		sc.RelPath = true
 	}
 
 	return sc
@@ -121,6 +127,30 @@ func runC14(env *Env, s Scenario) {
 	_ = os.WriteFile(keyPath, clientPEM, 0o600)
 	addr := fmt.Sprintf("%s:%d", sc.Host, sc.Port)
 	khPath := filepath.Join(dir, "known_hosts")
+	khOpt := khPath
+	if sc.RelPath {
+		// working directory and home directory are the process's: runs of a worker are sequential
+		cwd, home := filepath.Join(dir, "cwd"), filepath.Join(dir, "home")
+		_ = os.MkdirAll(filepath.Join(cwd, "kh"), 0o700)
+		_ = os.MkdirAll(filepath.Join(home, "kh"), 0o700)
+		oldWD, _ := os.Getwd()
+		oldHome := os.Getenv("HOME")
+		if err := os.Chdir(cwd); err != nil {
+			env.Res.HarnessError = err.Error()
+
+			return
+		}
+		os.Setenv("HOME", home)
+		defer func() { _ = os.Chdir(oldWD); os.Setenv("HOME", oldHome) }()
+		khPath = filepath.Join(cwd, "kh", "known_hosts")
+		khOpt = filepath.Join("kh", "known_hosts")
+		twin := knownhosts.Line([]string{knownhosts.Normalize(addr)}, hostKey.PublicKey()) + "\n"
+		if sc.KnownHosts == "has" {
+			twin = knownhosts.Line([]string{knownhosts.Normalize(addr)}, otherKey.PublicKey()) + "\n"
+		}
+		_ = os.WriteFile(filepath.Join(home, "kh", "known_hosts"), []byte(twin), 0o600)
+		env.Probe("known-hosts-path-relative-with-a-twin-below-home")
+	}
 	writeKH := func(state string) {
 		switch state {
 		case "has":
@@ -253,7 +283,7 @@ func runC14(env *Env, s Scenario) {
 		opts = append(opts, options.WithAuthNoStrictKey())
 	}
 	if sc.KnownHosts != "none" {
-		opts = append(opts, options.WithSSHKnownHostsFile(khPath))
+		opts = append(opts, options.WithSSHKnownHostsFile(khOpt))
 	}
 	if sc.Netconf {
 		opts = append(opts, func(o interface{}) error {
@@ -268,7 +298,12 @@ func runC14(env *Env, s Scenario) {
 	}
 	tr, err := transport.NewTransport(li, sc.Host, transport.StandardTransport, opts...)
 	if err != nil {
-		env.Res.HarnessError = "NewTransport: " + err.Error()
+		// refused before anything was opened: fine where no connection may be established
+		if sc.wantOpen() {
+			env.Fail("transport-not-built", "standard", "NewTransport failed (%v) for a configuration that must connect", err)
+		} else {
+			env.Probe("refused-when-the-transport-is-built")
+		}
 
 		return
 	}
